@@ -48,7 +48,8 @@ def parseBool : String → Option Bool
 
 /-- Value trees travel as a prefix token stream:
 `i <ty> <v>` | `b <0|1>` | `e <namehex|-> <ty> <v>` | `f <hex>` | `a <ascii 0|1> <n> elem…` |
-`s <n> (<namehex> <ro 0|1> value)…`.  Fuel = number of tokens. -/
+`s <n> (<namehex> <ro 0|1> value)…`; an unreadable atomic element is `u`, an unreadable atomic
+field `<namehex> u` (texts written with allow_partial_output).  Fuel = number of tokens. -/
 def unhexTok (t : String) : Option (List Char) :=
   if t == "-" then some [] else unhex t.toList
 
@@ -83,6 +84,9 @@ def parseVal : Nat → List String → Option (TVal × List String)
 def parseVals : Nat → Nat → List String → Option (TVals × List String)
   | 0, _, _ => none
   | _, 0, r => some (.nil, r)
+  | fuel + 1, k + 1, "u" :: r => do
+    let (vs, r2) ← parseVals fuel k r
+    pure (.skip vs, r2)
   | fuel + 1, k + 1, r => do
     let (v, r1) ← parseVal fuel r
     let (vs, r2) ← parseVals fuel k r1
@@ -90,6 +94,10 @@ def parseVals : Nat → Nat → List String → Option (TVals × List String)
 def parseFields : Nat → Nat → List String → Option (TFields × List String)
   | 0, _, _ => none
   | _, 0, r => some (.nil, r)
+  | fuel + 1, k + 1, name :: "u" :: r => do
+    let nm ← unhex name.toList
+    let (fs, r2) ← parseFields fuel k r
+    pure (.skip nm fs, r2)
   | fuel + 1, k + 1, name :: ro :: r => do
     let nm ← unhex name.toList
     let b ← parseBool ro
